@@ -166,8 +166,14 @@ func runC07(c *eng.Ctx) {
 			e := eng.ErrOf(search[0])
 			c.Guard("ORDER-journal", "append-only-when-marked", fn, eng.Entry(fn), writes, eng.PassEdges(fn, eng.ErrNil(e)), "the journal is appended only when the needle was found and marked")
 			for i, st := range startsOf(eng.PassEdges(fn, eng.ErrNil(e))) {
-				hit, path := eng.Search(st, eng.IsReturn, eng.SearchOpt{Barrier: eng.AnyOf(writes)})
-				c.Ob("ORDER-journal", fmt.Sprintf("%s every-marked-delete-is-journaled#%d", eng.FuncName(fn), i), hit == nil, fn.Pos(), "every found-and-marked deletion is recorded in the journal"+pathNote(P, fn, hit, path))
+				if ahead, _ := eng.Search(st, eng.AnyOf(writes), eng.SearchOpt{}); ahead == nil {
+					continue // a test of the (reused) error variable behind the journal write
+				}
+				hit, path := eng.Search(st, func(in ssa.Instruction) bool {
+					r, ok := in.(*ssa.Return)
+					return ok && eng.ReturnMaySucceed(fn, r)
+				}, eng.SearchOpt{Barrier: eng.AnyOf(writes)})
+				c.Ob("ORDER-journal", fmt.Sprintf("%s every-marked-delete-is-journaled#%d", eng.FuncName(fn), i), hit == nil, fn.Pos(), "every found-and-marked deletion that is acknowledged is recorded in the journal"+pathNote(P, fn, hit, path))
 			}
 			seekEnd := func(in ssa.Instruction) bool {
 				cl, ok := in.(*ssa.Call)
@@ -186,6 +192,9 @@ func runC07(c *eng.Ctx) {
 			c.Before("ORDER-journal", "append-under-lock", fn, eng.CallTo("sync.Mutex).Lock", "sync.RWMutex).Lock"), writes, "the journal append happens under ecjFileAccessLock")
 		}
 	}
+	// the journal append and the rebuilt index of a decoded volume report their write errors
+	errAll(c, "ERR-journal", "weed/storage/erasure_coding", "a failed journal / index write fails the operation", "(*EcVolume).DeleteNeedleFromEcx", "WriteIdxFileFromEcIndex")
+	c.Expect("ERR-journal", 6)
 	c.Expect("ORDER-journal", 5)
 
 	// (5) replay
